@@ -51,18 +51,24 @@ class TealBlock(ABC):
             # using a list instead of a set as TealBlock is not hashable and PyTEAL programs should be short anyway
             visited = []
 
-        if parent is not None:
-            count = 0
-            for block in self.incoming:
-                if parent is block:
-                    count += 1
-            assert count == 1
+        # iterative depth-first walk (same visiting order as the recursive definition)
+        # so that long programs do not exhaust the Python recursion limit
+        pending: List[Tuple["TealBlock", "TealBlock | None"]] = [(self, parent)]
+        while pending:
+            current, currentParent = pending.pop()
 
-        if all(self is not b for b in visited):
-            # if the block was not already visited
-            visited.append(self)
-            for block in self.getOutgoing():
-                block.validateTree(self, visited)
+            if currentParent is not None:
+                count = 0
+                for block in current.incoming:
+                    if currentParent is block:
+                        count += 1
+                assert count == 1
+
+            if all(current is not b for b in visited):
+                # if the block was not already visited
+                visited.append(current)
+                for block in reversed(current.getOutgoing()):
+                    pending.append((block, current))
 
     def addIncoming(
         self,
@@ -79,14 +85,22 @@ class TealBlock(ABC):
             # using a list instead of a set as TealBlock is not hashable and PyTEAL programs should be short anyway
             visited = []
 
-        if parent is not None and all(parent is not b for b in self.incoming):
-            self.incoming.append(parent)
+        # iterative depth-first walk (same visiting order as the recursive definition)
+        # so that long programs do not exhaust the Python recursion limit
+        pending: List[Tuple["TealBlock", "TealBlock | None"]] = [(self, parent)]
+        while pending:
+            current, currentParent = pending.pop()
 
-        if all(self is not b for b in visited):
-            # if the block was not already visited
-            visited.append(self)
-            for b in self.getOutgoing():
-                b.addIncoming(self, visited)
+            if currentParent is not None and all(
+                currentParent is not b for b in current.incoming
+            ):
+                current.incoming.append(currentParent)
+
+            if all(current is not b for b in visited):
+                # if the block was not already visited
+                visited.append(current)
+                for b in reversed(current.getOutgoing()):
+                    pending.append((b, current))
 
     def validateSlots(
         self,
@@ -99,33 +113,43 @@ class TealBlock(ABC):
         if slotsInUse is None:
             slotsInUse = set()
 
-        currentSlotsInUse = set(slotsInUse)
-        errors = []
+        errors: List[TealCompileError] = []
 
-        for op in self.ops:
-            if op.getOp() == Op.store:
-                for slot in op.getSlots():
-                    currentSlotsInUse.add(slot)
-
-            if op.getOp() == Op.load:
-                for slot in op.getSlots():
-                    if slot not in currentSlotsInUse:
-                        e = TealCompileError(
-                            "Scratch slot load occurs before store", op.expr
-                        )
-                        errors.append(e)
-
-        if not self.isTerminal():
-            sortedSlots = sorted(slot.id for slot in currentSlotsInUse)
-            for block in self.getOutgoing():
-                visitedKey = (id(block), *sortedSlots)
+        # iterative depth-first walk (same visiting order as the recursive definition)
+        # so that long programs do not exhaust the Python recursion limit. Each entry is a
+        # block to check, the slots stored on the path leading to it, and its memoisation key.
+        pending: List[
+            Tuple["TealBlock", Set["ScratchSlot"], Tuple[int, ...] | None]
+        ] = [(self, slotsInUse, None)]
+        while pending:
+            current, incomingSlotsInUse, visitedKey = pending.pop()
+            if visitedKey is not None:
                 if visitedKey in visited:
                     continue
                 visited.add(visitedKey)
 
-                for error in block.validateSlots(currentSlotsInUse, visited):
-                    if error not in errors:
-                        errors.append(error)
+            currentSlotsInUse = set(incomingSlotsInUse)
+
+            for op in current.ops:
+                if op.getOp() == Op.store:
+                    for slot in op.getSlots():
+                        currentSlotsInUse.add(slot)
+
+                if op.getOp() == Op.load:
+                    for slot in op.getSlots():
+                        if slot not in currentSlotsInUse:
+                            e = TealCompileError(
+                                "Scratch slot load occurs before store", op.expr
+                            )
+                            if visitedKey is None or e not in errors:
+                                errors.append(e)
+
+            if not current.isTerminal():
+                sortedSlots = sorted(slot.id for slot in currentSlotsInUse)
+                for block in reversed(current.getOutgoing()):
+                    pending.append(
+                        (block, currentSlotsInUse, (id(block), *sortedSlots))
+                    )
 
         return errors
 
